@@ -80,9 +80,10 @@ def check(V, prop, tier, seed, cfg):
                 for rep in range(tcfg.get("reps", 1)):
                     s = base + n * 13 + rep * 1009
                     cap = [1, 2, 3, 4][(n + rep) % 4]
-                    if rep % 3 == 2:
-                        cap = 150  # a large population expiring at once; BigTracked values (> 256 bytes)
-                    jobs.append(("pair", kind, a, b, s, iters, rep % 3, cap, 0, 0))  # rep 0: Tracked, 1: std::string keys/values, 2: BigTracked + capacity 150
+                    types = rep % 4 if rep % 4 < 3 else n % 3  # 0: Tracked, 1: std::string keys/values, 2: BigTracked (> 256 bytes)
+                    if rep % 4 == 3:
+                        cap = 150  # a large population expiring at once, long ranges
+                    jobs.append(("pair", kind, a, b, s, iters, types, cap, 0, 0))
                 n += 1
     for i in range(tcfg.get("programs", 0)):
         kind = KINDS[i % len(KINDS)]
